@@ -38,6 +38,15 @@ def q2f(q):
     return out
 
 
+def negzero(arr):
+    """the same values with every second zero written as -0.0 (equal as numbers, different as bytes)"""
+    arr = numpy.array(arr, dtype=float)
+    flat = arr.reshape(-1)
+    zeros = numpy.flatnonzero(flat == 0)
+    flat[zeros[::2]] = -0.0
+    return arr
+
+
 def f2q(x) -> int:
     """float -> quanta; NaN -> NANQ; non-integral -> INEXACT.  No rounding."""
     x = float(x)
@@ -128,7 +137,7 @@ def affine(kind: str):
 
 def structured_geometry(conv: str, ny: int, nx: int, *, shape: str = "skew", bounds: bool = True,
                         holes: list[tuple[int, int]] | None = None, descending=(False, False),
-                        nonuniform: bool = False, orphan_nodes: bool = False) -> dict:
+                        nonuniform: bool = False, orphan_nodes: bool = False, rows: str = "chained", gap: int = 0) -> dict:
     """Abstract geometry (quanta) for a structured convention.
 
     Returns a dict with, depending on the convention:
@@ -159,6 +168,15 @@ def structured_geometry(conv: str, ny: int, nx: int, *, shape: str = "skew", bou
         if bounds:
             g["xb"] = [[xe[k], xe[k + 1]] for k in range(nx)]
             g["yb"] = [[ye[k], ye[k + 1]] for k in range(ny)]
+            if gap:
+                # cells that do not touch: each stops `gap` quanta short of the edge it would share with the next one
+                g["xb"] = [[a, b - gap if b > a else b + gap] for a, b in g["xb"]]
+                g["yb"] = [[a, b - gap if b > a else b + gap] for a, b in g["yb"]]
+            if rows == "minmax":
+                # every row written (lower, upper) whatever the direction of the axis: on a descending axis the upper bound
+                # of one row is NOT the lower bound of the next
+                g["xb"] = [sorted(r) for r in g["xb"]]
+                g["yb"] = [sorted(r) for r in g["yb"]]
         return g
     f = affine(shape if shape in ("rect", "skew", "skew2") else "skew")
     node = [[f(i, j) for i in range(nx + 1)] for j in range(ny + 1)]
@@ -391,6 +409,26 @@ def build(w: dict) -> xarray.Dataset:
         if v.get("late"):
             continue                      # added later, in place (see cellsdrv Mutate)
         ds[v["name"]] = var_array(w, v)
+    if w.get("auxtime"):
+        # a second time-like variable along the time dimension, counted in another unit from another epoch
+        te = next(e for e in w.get("extras", []) if (e.get("coord") or {}).get("kind") == "time")
+        tv = ds[te["coord"]["name"]]
+        aux = xarray.DataArray(tv.values + numpy.timedelta64(90, "m"), dims=tv.dims, attrs={"long_name": "valid time"})
+        aux.encoding.update({"units": "minutes since 2001-03-01 00:00:00", "calendar": "proleptic_gregorian"})
+        ds["valid_time"] = aux
+        ds["valid_time"].encoding.update(aux.encoding)
+    if w.get("dim_labels"):
+        # index coordinates on the grid dimensions whose labels are NOT the positions (cell ids 10, 20, 30 ...)
+        kinds = {"ugrid": ("face", "edge", "node"), "shoc_standard": ("face", "left", "back", "node"),
+                 "arakawa": ("face", "left", "back", "node")}.get(conv, ("face",))
+        for kind in kinds:
+            try:
+                dims_ = kind_dims(w, kind)
+            except Exception:
+                continue
+            for d in dims_:
+                if d in ds.sizes and d not in ds.variables:
+                    ds = ds.assign_coords({d: (d, (numpy.arange(ds.sizes[d], dtype="int64") + 1) * 10)})
     first = w.get("first_var")
     if first and first in ds.data_vars:
         # the same dataset with this variable declared first: the dataset's own dimension order (dataset.sizes) then
@@ -427,8 +465,9 @@ def _build_cf1d(w):
     if "xb" in g:
         lat_attrs["bounds"] = nm.get("lat_bounds", "lat_bnds")
         lon_attrs["bounds"] = nm.get("lon_bounds", "lon_bnds")
-        data_vars[lat_attrs["bounds"]] = xarray.DataArray(q2f(g["yb"]), dims=[nm["ydim"], "bnds"])
-        data_vars[lon_attrs["bounds"]] = xarray.DataArray(q2f(g["xb"]), dims=[nm["xdim"], "bnds"])
+        nz = negzero if w.get("negzero") else (lambda a: a)
+        data_vars[lat_attrs["bounds"]] = xarray.DataArray(nz(q2f(g["yb"])), dims=[nm["ydim"], "bnds"])
+        data_vars[lon_attrs["bounds"]] = xarray.DataArray(nz(q2f(g["xb"])), dims=[nm["xdim"], "bnds"])
     # (coord_dtype: whole-degree axes are sometimes stored as integers)
     cdt = w.get("coord_dtype", "f8")
     lat = xarray.DataArray(numpy.asarray(q2f(g["yc"])).astype(cdt), dims=[nm["ydim"]], attrs=lat_attrs)
@@ -453,8 +492,9 @@ def _build_cf2d(w):
     if "xb" in g:
         lat_attrs["bounds"] = nm.get("lat_bounds", "lat_bnds")
         lon_attrs["bounds"] = nm.get("lon_bounds", "lon_bnds")
-        data_vars[lat_attrs["bounds"]] = xarray.DataArray(q2f(g["yb"]), dims=dims + ["bnds"])
-        data_vars[lon_attrs["bounds"]] = xarray.DataArray(q2f(g["xb"]), dims=dims + ["bnds"])
+        nz = negzero if w.get("negzero") else (lambda a: a)
+        data_vars[lat_attrs["bounds"]] = xarray.DataArray(nz(q2f(g["yb"])), dims=dims + ["bnds"])
+        data_vars[lon_attrs["bounds"]] = xarray.DataArray(nz(q2f(g["xb"])), dims=dims + ["bnds"])
     lat = xarray.DataArray(q2f(g["yc"]), dims=dims, attrs=lat_attrs)
     lon = xarray.DataArray(q2f(g["xc"]), dims=dims, attrs=lon_attrs)
     if w.get("coords_as", "coords") == "coords":
@@ -585,11 +625,14 @@ def _build_ugrid(w):
     if m.get("face_centres"):
         fx = xarray.DataArray(q2f([p[0] for p in m["face_centres"]]), dims=[face_dim])
         fy = xarray.DataArray(q2f([p[1] for p in m["face_centres"]]), dims=[face_dim])
-        mesh_attrs["face_coordinates"] = "Mesh2_face_x Mesh2_face_y"
+        mesh_attrs["face_coordinates"] = "Mesh2_face_x" + enc.get("coord_sep", " ") + "Mesh2_face_y"
         if enc.get("coords_as", "plain") == "coords":
             coords["Mesh2_face_x"] = fx; coords["Mesh2_face_y"] = fy
         else:
             data_vars["Mesh2_face_x"] = fx; data_vars["Mesh2_face_y"] = fy
+    if enc.get("coord_sep"):
+        # CF blank-separated lists may be separated by any amount of white space
+        mesh_attrs["node_coordinates"] = "Mesh2_node_x" + enc["coord_sep"] + "Mesh2_node_y"
     data_vars["Mesh2"] = xarray.DataArray(numpy.int32(0), attrs=mesh_attrs)
     ds = xarray.Dataset(data_vars=data_vars, coords=coords)
     ds.attrs["Conventions"] = "UGRID-1.0"
